@@ -10,7 +10,8 @@ From RT Require Import Model.StackTrace Model.Segments.
 Import ListNotations.
 Local Open Scope nat_scope.
 
-Record tfile := { tf_min : N; tf_max : N; tf_txs : list nat; tf_size : N }.
+(* tf_hash: the hash type of the table (false = SHA-1, true = SHA-256) *)
+Record tfile := { tf_min : N; tf_max : N; tf_txs : list nat; tf_size : N; tf_hash : bool }.
 
 (* ---------------- the abstract directory ---------------- *)
 
@@ -29,7 +30,7 @@ Inductive req :=
 | QOpenTab (n : nat)
 | QOpenTmp (t : nat)
 | QCreateTemp
-| QRenameTmp (t : nat) (min max : N) (txs : list nat)   (* temp file -> a new table file *)
+| QRenameTmp (t : nat) (min max : N) (txs : list nat) (hash : bool)   (* temp file -> a new table file *)
 | QCommitList (names : list nat)                        (* write the names into the lock file, rename it onto tables.list *)
 | QRemove (p : path)
 | QRemoveOne (cands : list nat)        (* unlink one of these tables: Go walks a map, any order *)
@@ -118,12 +119,12 @@ Definition apply_req (size_oracle : nat -> N) (choice : option nat) (h : nat) (q
       let t := f_next_tmp s in
       ({| f_list := f_list s; f_lock := f_lock s; f_tabs := f_tabs s; f_tlocks := f_tlocks s;
           f_tmps := (t, h) :: f_tmps s; f_next_tab := f_next_tab s; f_next_tmp := S t |}, STmp t, FOk)
-  | QRenameTmp t mn mx txs =>
+  | QRenameTmp t mn mx txs hsh =>
       match lookup t (f_tmps s) with
       | None => (s, SNoEnt, FNoEnt)
       | Some _ =>
           let n := f_next_tab s in
-          let f := {| tf_min := mn; tf_max := mx; tf_txs := txs; tf_size := size_oracle n |} in
+          let f := {| tf_min := mn; tf_max := mx; tf_txs := txs; tf_size := size_oracle n; tf_hash := hsh |} in
           ({| f_list := f_list s; f_lock := f_lock s; f_tabs := f_tabs s ++ [(n, f)]; f_tlocks := f_tlocks s;
               f_tmps := del t (f_tmps s); f_next_tab := S n; f_next_tmp := f_next_tmp s |}, SNew n f, FOk)
       end
@@ -169,7 +170,12 @@ Definition apply_req (size_oracle : nat -> N) (choice : option nat) (h : nat) (q
 Definition mem := list (nat * tfile).          (* st.stack: open readers *)
 Definition mnames (m : mem) : list nat := map fst m.
 
-Inductive rstatus := RlOk | RlNotExist.
+Inductive rstatus := RlOk | RlNotExist | RlBadHash.
+
+(* NewMerged's check at the end of a load: every table is of the handle's hash type
+   (its other check, increasing index ranges, cannot fail: C05) *)
+Definition same_hash (hh : bool) (m : list (nat * tfile)) : bool :=
+  forallb (fun x => Bool.eqb (tf_hash (snd x)) hh) m.
 
 (* open the tables of [names] that cannot be reused; None = a file is missing *)
 Fixpoint open_all (reuse : bool) (old : mem) (names : list nat) (acc : mem) : prog (option mem) :=
@@ -205,9 +211,9 @@ Fixpoint remove_any (fuel : nat) (cands : list nat) : prog unit :=
       end
   end.
 
-(* reload(reuse): [attempts] bounds the retry loop (the 2.5 s deadline); when it
+(* reload(reuse) of a handle configured with hash type [hh]: [attempts] bounds the retry loop (the 2.5 s deadline); when it
    runs out the handle keeps its previous stack and reload reports success *)
-Fixpoint reload (attempts : nat) (reuse : bool) (old : mem) : prog (mem * rstatus) :=
+Fixpoint reload (attempts : nat) (hh : bool) (reuse : bool) (old : mem) : prog (mem * rstatus) :=
   match attempts with
   | O => Ret (old, RlOk)
   | S a =>
@@ -216,22 +222,28 @@ Fixpoint reload (attempts : nat) (reuse : bool) (old : mem) : prog (mem * rstatu
       do! o := open_all reuse old names [] in
       match o with
       | Some m =>
-          (* success: drop (close + unlink) the tables that are no longer listed *)
-          let gone := filter (fun n => negb (mem_nat n names)) (mnames old) in
-          do! _ := remove_any (length gone) gone in
-          Ret (m, RlOk)
+          if same_hash hh m then
+            (* success: drop (close + unlink) the tables that are no longer listed *)
+            let gone := filter (fun n => negb (mem_nat n names)) (mnames old) in
+            do! _ := remove_any (length gone) gone in
+            Ret (m, RlOk)
+          else
+            (* a table of another hash type: the tables just opened are closed again, the
+               handle keeps what it had (fix: "reload validates the new tables ... before
+               they replace the current ones") *)
+            Ret (old, RlBadHash)
       | None =>
           do! r2 := op QReadList in
           let after := match r2 with SNames (Some l) => l | _ => [] end in
           if names_eqb after names then Ret (old, RlNotExist)
-          else reload a reuse old
+          else reload a hh reuse old
       end
   end.
 
 (* the first load (NewStack): like reload from an empty stack, but when every
    attempt lost a race there is no earlier state to keep: the open fails
    (fix: commit "NewStack reports an error when every load attempt lost a race") *)
-Fixpoint open_reload (attempts : nat) : prog (option mem) :=
+Fixpoint open_reload (attempts : nat) (hh : bool) : prog (option mem) :=
   match attempts with
   | O => Ret None
   | S a =>
@@ -239,12 +251,12 @@ Fixpoint open_reload (attempts : nat) : prog (option mem) :=
       let names := match r with SNames (Some l) => l | _ => [] end in
       do! o := open_all true [] names [] in
       match o with
-      | Some m => Ret (Some m)
+      | Some m => if same_hash hh m then Ret (Some m) else Ret None
       | None =>
           do! r2 := op QReadList in
           let after := match r2 with SNames (Some l) => l | _ => [] end in
           if names_eqb after names then Ret None
-          else open_reload a
+          else open_reload a hh
       end
   end.
 
@@ -279,7 +291,7 @@ Definition last_max (m : mem) : N := match rev m with (_, f) :: _ => tf_max f | 
 Definition next_index (m : mem) : N := match m with [] => 1%N | _ => (last_max m + 1)%N end.
 
 (* compactRange(first, last, expiry?): true = done *)
-Definition compact_range (attempts : nat) (first last : nat) (expiry : bool) (m : mem) : prog (mem * bool) :=
+Definition compact_range (attempts : nat) (hh : bool) (first last : nat) (expiry : bool) (m : mem) : prog (mem * bool) :=
   if Nat.leb last first && negb expiry then Ret (m, true)
   else
     do! r := op (QCreateExcl PLL) in
@@ -311,12 +323,12 @@ Definition compact_range (attempts : nat) (first last : nat) (expiry : bool) (m 
                       | Some start =>
                           let mn := match sub with (_, f) :: _ => tf_min f | [] => 0%N end in
                           let mx := last_max sub in
-                          do! nw := op (QRenameTmp tmp mn mx (flat_map (fun x => tf_txs (snd x)) sub)) in
+                          do! nw := op (QRenameTmp tmp mn mx (flat_map (fun x => tf_txs (snd x)) sub) hh) in
                           match nw with
                           | SNew n _ =>
                               do! _ := op (QCommitList (firstn start cur2 ++ [n] ++ skipn (start + length sub) cur2)) in
                               do! _ := remove_tabs (mnames sub) in
-                              do! rl := reload attempts (negb expiry) m in
+                              do! rl := reload attempts hh (negb expiry) m in
                               do! _ := remove_tlocks locks in
                               Ret (fst rl, true)
                           | _ => do! _ := remove_tlocks locks in do! _ := op (QRemove PLL) in Ret (m, false)
@@ -332,16 +344,16 @@ Definition compact_range (attempts : nat) (first last : nat) (expiry : bool) (m 
     | _ => Ret (m, false)
     end.
 
-Definition auto_compact (attempts : nat) (m : mem) : prog mem :=
+Definition auto_compact (attempts : nat) (hh : bool) (m : mem) : prog mem :=
   match suggest (map (fun x => tf_size (snd x)) m) with
   | None => Ret m
-  | Some (s, e) => do! r := compact_range attempts s (e - 1) false m in Ret (fst r)
+  | Some (s, e) => do! r := compact_range attempts hh s (e - 1) false m in Ret (fst r)
   end.
 
 Inductive add_kind := KAdd (tx : nat) | KEmpty | KBad.
 
 (* Stack.Add *)
-Definition add (attempts : nat) (kind : add_kind) (auto : bool) (m : mem) : prog (mem * apires) :=
+Definition add (attempts : nat) (hh : bool) (kind : add_kind) (auto : bool) (m : mem) : prog (mem * apires) :=
   do! r := op (QCreateExcl PLL) in
   match r with
   | SOk =>
@@ -349,7 +361,7 @@ Definition add (attempts : nat) (kind : add_kind) (auto : bool) (m : mem) : prog
       let cur := match c with SNames (Some l) => l | _ => [] end in
       if negb (names_eqb cur (mnames m)) then
         do! _ := op (QRemove PLL) in
-        do! rl := reload attempts true m in Ret (fst rl, RLockFailure)
+        do! rl := reload attempts hh true m in Ret (fst rl, RLockFailure)
       else
         do! t := op QCreateTemp in
         match t with
@@ -358,32 +370,32 @@ Definition add (attempts : nat) (kind : add_kind) (auto : bool) (m : mem) : prog
             | KEmpty =>
                 do! _ := op (QRemove (PTmp tmp)) in
                 do! _ := op (QRemove PLL) in
-                if auto then do! m' := auto_compact attempts m in Ret (m', ROk) else Ret (m, ROk)
+                if auto then do! m' := auto_compact attempts hh m in Ret (m', ROk) else Ret (m, ROk)
             | KBad =>
                 do! _ := op (QRemove (PTmp tmp)) in
                 do! _ := op (QRemove PLL) in Ret (m, RRejected)
             | KAdd tx =>
                 do! _ := op (QOpenTmp tmp) in
                 let ui := next_index m in
-                do! nw := op (QRenameTmp tmp ui ui [tx]) in
+                do! nw := op (QRenameTmp tmp ui ui [tx] hh) in
                 match nw with
                 | SNew n _ =>
                     do! _ := op (QRemove (PTmp tmp)) in
                     do! _ := op (QCommitList (mnames m ++ [n])) in
-                    do! rl := reload attempts true m in
-                    if auto then do! m' := auto_compact attempts (fst rl) in Ret (m', ROk) else Ret (fst rl, ROk)
+                    do! rl := reload attempts hh true m in
+                    if auto then do! m' := auto_compact attempts hh (fst rl) in Ret (m', ROk) else Ret (fst rl, ROk)
                 | _ => do! _ := op (QRemove PLL) in Ret (m, RErr)
                 end
             end
         | _ => do! _ := op (QRemove PLL) in Ret (m, RErr)
         end
-  | _ => do! rl := reload attempts true m in Ret (fst rl, RLockFailure)
+  | _ => do! rl := reload attempts hh true m in Ret (fst rl, RLockFailure)
   end.
 
 (* NewAddition / Add / Add / Commit / Close: a transaction of two tables.  The second
    table holds no transaction of its own; with [same] it claims the update index
    of the first and is refused, and Close takes the first table back. *)
-Definition add_multi (attempts : nat) (tx : nat) (same : bool) (m : mem) : prog (mem * apires) :=
+Definition add_multi (attempts : nat) (hh : bool) (tx : nat) (same : bool) (m : mem) : prog (mem * apires) :=
   do! r := op (QCreateExcl PLL) in
   match r with
   | SOk =>
@@ -397,7 +409,7 @@ Definition add_multi (attempts : nat) (tx : nat) (same : bool) (m : mem) : prog 
         | STmp tmp =>
             do! _ := op (QOpenTmp tmp) in
             let ui := next_index m in
-            do! nw := op (QRenameTmp tmp ui ui [tx]) in
+            do! nw := op (QRenameTmp tmp ui ui [tx] hh) in
             match nw with
             | SNew n1 _ =>
                 do! _ := op (QRemove (PTmp tmp)) in
@@ -411,12 +423,12 @@ Definition add_multi (attempts : nat) (tx : nat) (same : bool) (m : mem) : prog 
                     else
                       do! _ := op (QOpenTab n1) in
                       do! _ := op (QOpenTmp tmp2) in
-                      do! nw2 := op (QRenameTmp tmp2 (ui + 1) (ui + 1) []) in
+                      do! nw2 := op (QRenameTmp tmp2 (ui + 1) (ui + 1) [] hh) in
                       match nw2 with
                       | SNew n2 _ =>
                           do! _ := op (QRemove (PTmp tmp2)) in
                           do! _ := op (QCommitList (mnames m ++ [n1; n2])) in
-                          do! rl := reload attempts true m in
+                          do! rl := reload attempts hh true m in
                           Ret (fst rl, ROk)
                       | _ => do! _ := op (QRemove (PT n1)) in do! _ := op (QRemove PLL) in Ret (m, RErr)
                       end
@@ -447,7 +459,7 @@ Fixpoint clean_loop (fuel : nat) (cands : list nat) (mx : N) : prog unit :=
       end
   end.
 
-Definition clean (attempts : nat) (m : mem) : prog (mem * apires) :=
+Definition clean (attempts : nat) (hh : bool) (m : mem) : prog (mem * apires) :=
   do! r := op (QCreateExcl PLL) in
   match r with
   | SOk =>
@@ -456,10 +468,10 @@ Definition clean (attempts : nat) (m : mem) : prog (mem * apires) :=
       if negb (names_eqb cur (mnames m)) then
         do! _ := op (QRemove PLL) in Ret (m, RLockFailure)
       else
-        do! rl := reload attempts true m in
+        do! rl := reload attempts hh true m in
         let m' := fst rl in
         match snd rl with
-        | RlNotExist => do! _ := op (QRemove PLL) in Ret (m', RErr)
+        | RlNotExist | RlBadHash => do! _ := op (QRemove PLL) in Ret (m', RErr)
         | RlOk =>
             do! d := op QReadDir in
             match m' with
@@ -490,7 +502,8 @@ Inductive hpc :=
 | HRun (op : apiop) (p : prog (option mem * apires))   (* inside a call; None = the handle has no stack afterwards *)
 | HDead.
 
-Record handle := { h_mem : option mem; h_pc : hpc; h_script : list apiop }.
+(* h_hash: the hash type the handle is configured with (Config.HashID) *)
+Record handle := { h_mem : option mem; h_pc : hpc; h_script : list apiop; h_hash : bool }.
 
 Record world := { w_fs : fs; w_handles : list handle }.
 
@@ -500,29 +513,29 @@ Definition wrap {A} (p : prog A) (f : A -> option mem * apires) : prog (option m
   do! a := p in Ret (f a).
 
 (* the program of an API call on a handle holding [m] *)
-Definition call_prog (attempts : nat) (o : apiop) (m : option mem) : prog (option mem * apires) :=
+Definition call_prog (attempts : nat) (hh : bool) (o : apiop) (m : option mem) : prog (option mem * apires) :=
   match o, m with
   | AOpen, _ =>
-      wrap (open_reload attempts) (fun r => match r with Some m => (Some m, ROk) | None => (None, RErr) end)
-  | AAdd tx auto, Some mm => wrap (add attempts (KAdd tx) auto mm) (fun r => (Some (fst r), snd r))
-  | AAddEmpty, Some mm => wrap (add attempts KEmpty false mm) (fun r => (Some (fst r), snd r))
-  | AAddBad, Some mm => wrap (add attempts KBad false mm) (fun r => (Some (fst r), snd r))
+      wrap (open_reload attempts hh) (fun r => match r with Some m => (Some m, ROk) | None => (None, RErr) end)
+  | AAdd tx auto, Some mm => wrap (add attempts hh (KAdd tx) auto mm) (fun r => (Some (fst r), snd r))
+  | AAddEmpty, Some mm => wrap (add attempts hh KEmpty false mm) (fun r => (Some (fst r), snd r))
+  | AAddBad, Some mm => wrap (add attempts hh KBad false mm) (fun r => (Some (fst r), snd r))
   | ACompactAll, Some mm =>
       match mm with
       | [] => Ret (Some mm, ROk)
-      | _ => wrap (compact_range attempts 0 (length mm - 1) false mm) (fun r => (Some (fst r), ROk))
+      | _ => wrap (compact_range attempts hh 0 (length mm - 1) false mm) (fun r => (Some (fst r), ROk))
       end
   | AExpire, Some mm =>
       match mm with
       | [] => Ret (Some mm, ROk)
-      | _ => wrap (compact_range attempts 0 (length mm - 1) true mm) (fun r => (Some (fst r), ROk))
+      | _ => wrap (compact_range attempts hh 0 (length mm - 1) true mm) (fun r => (Some (fst r), ROk))
       end
-  | AAddMulti tx same, Some mm => wrap (add_multi attempts tx same mm) (fun r => (Some (fst r), snd r))
+  | AAddMulti tx same, Some mm => wrap (add_multi attempts hh tx same mm) (fun r => (Some (fst r), snd r))
   | ACompact first last, Some mm =>
       if Nat.ltb last (length mm) && Nat.leb first last
-      then wrap (compact_range attempts first last false mm) (fun r => (Some (fst r), ROk))
+      then wrap (compact_range attempts hh first last false mm) (fun r => (Some (fst r), ROk))
       else Ret (Some mm, ROk)
-  | AClean, Some mm => wrap (clean attempts mm) (fun r => (Some (fst r), snd r))
+  | AClean, Some mm => wrap (clean attempts hh mm) (fun r => (Some (fst r), snd r))
   | AClose, Some mm => wrap (close mm) (fun _ => (None, ROk))
   | AClose, None => Ret (None, ROk)
   | ARead, Some mm => Ret (Some mm, RView (flat_map (fun x => tf_txs (snd x)) mm) (hd_error (rev (flat_map (fun x => tf_txs (snd x)) mm))))
@@ -536,7 +549,7 @@ Definition req_event (h : nat) (q : req) (rs : resp) (fr : fres) : event :=
   | QOpenTab n => EFs h FOpen (PT n) fr []
   | QOpenTmp t => EFs h FOpen (PTmp t) fr []
   | QCreateTemp => EFs h FCreateTemp (match rs with STmp t => PTmp t | _ => POther end) fr []
-  | QRenameTmp t _ _ _ => EFs h (FRename (match rs with SNew n _ => PT n | _ => POther end)) (PTmp t) fr []
+  | QRenameTmp t _ _ _ _ => EFs h (FRename (match rs with SNew n _ => PT n | _ => POther end)) (PTmp t) fr []
   | QCommitList _ => EFs h (FRename PL) PLL fr []
   | QRemove p => EFs h FRemove p fr []
   | QRemoveOne _ => EFs h FRemove (match rs with SRemoved n => PT n | _ => POther end) fr []
@@ -544,10 +557,21 @@ Definition req_event (h : nat) (q : req) (rs : resp) (fr : fres) : event :=
   | QReadDir => EFs h FReadDir PDir fr []
   end.
 
+(* the hash type of the stack = that of the first listed table; a listed table of another
+   hash type is as bad as a missing one ("a valid table of the stack's hash type") *)
+Definition stack_hash (s : fs) : option bool :=
+  match f_list s with
+  | Some (n :: _) => match lookup n (f_tabs s) with Some f => Some (tf_hash f) | None => None end
+  | _ => None
+  end.
+
 Definition snapshot_of (s : fs) : snapshot :=
   {| sn_list := f_list s;
      sn_tabs := map (fun n => (n, match lookup n (f_tabs s) with
-                                  | Some f => TGood {| ti_min := tf_min f; ti_max := tf_max f; ti_txs := tf_txs f |}
+                                  | Some f =>
+                                      if (match stack_hash s with Some hsh => Bool.eqb (tf_hash f) hsh | None => true end)
+                                      then TGood {| ti_min := tf_min f; ti_max := tf_max f; ti_txs := tf_txs f |}
+                                      else TBad
                                   | None => TBad end))
                     (match f_list s with Some l => l | None => [] end);
      sn_files := (match f_list s with Some _ => [PL] | None => [] end)
@@ -579,25 +603,25 @@ Definition step (size_oracle : nat -> N) (attempts : nat) (w : world) (h : nat) 
           | [] => (w, [])
           | o :: rest =>
               (* the call starts; a call without fs operations returns at once *)
-              match call_prog attempts o (h_mem hd) with
+              match call_prog attempts (h_hash hd) o (h_mem hd) with
               | Ret (m, r) =>
-                  ({| w_fs := w_fs w; w_handles := set_handle h {| h_mem := m; h_pc := HIdle; h_script := rest |} (w_handles w) |},
+                  ({| w_fs := w_fs w; w_handles := set_handle h {| h_mem := m; h_pc := HIdle; h_script := rest; h_hash := h_hash hd |} (w_handles w) |},
                    ECall h o :: finish_events h o m r)
-              | p => ({| w_fs := w_fs w; w_handles := set_handle h {| h_mem := h_mem hd; h_pc := HRun o p; h_script := rest |} (w_handles w) |},
+              | p => ({| w_fs := w_fs w; w_handles := set_handle h {| h_mem := h_mem hd; h_pc := HRun o p; h_script := rest; h_hash := h_hash hd |} (w_handles w) |},
                       [ECall h o])
               end
           end
       | HRun o (Ret (m, r)) =>
-          ({| w_fs := w_fs w; w_handles := set_handle h {| h_mem := m; h_pc := HIdle; h_script := h_script hd |} (w_handles w) |},
+          ({| w_fs := w_fs w; w_handles := set_handle h {| h_mem := m; h_pc := HIdle; h_script := h_script hd; h_hash := h_hash hd |} (w_handles w) |},
            finish_events h o m r)
       | HRun o (Op q k) =>
           let '(s', rs, fr) := apply_req size_oracle choice h q (w_fs w) in
           let ev := [req_event h q rs fr; ESnap (snapshot_of s')] in
           match k rs with
           | Ret (m, r) =>
-              ({| w_fs := s'; w_handles := set_handle h {| h_mem := m; h_pc := HIdle; h_script := h_script hd |} (w_handles w) |},
+              ({| w_fs := s'; w_handles := set_handle h {| h_mem := m; h_pc := HIdle; h_script := h_script hd; h_hash := h_hash hd |} (w_handles w) |},
                ev ++ finish_events h o m r)
-          | p' => ({| w_fs := s'; w_handles := set_handle h {| h_mem := h_mem hd; h_pc := HRun o p'; h_script := h_script hd |} (w_handles w) |}, ev)
+          | p' => ({| w_fs := s'; w_handles := set_handle h {| h_mem := h_mem hd; h_pc := HRun o p'; h_script := h_script hd; h_hash := h_hash hd |} (w_handles w) |}, ev)
           end
       end
   end.
@@ -605,7 +629,7 @@ Definition step (size_oracle : nat -> N) (attempts : nat) (w : world) (h : nat) 
 Definition crash (w : world) (h : nat) : world * list event :=
   match nth_error (w_handles w) h with
   | None => (w, [])
-  | Some hd => ({| w_fs := w_fs w; w_handles := set_handle h {| h_mem := h_mem hd; h_pc := HDead; h_script := [] |} (w_handles w) |},
+  | Some hd => ({| w_fs := w_fs w; w_handles := set_handle h {| h_mem := h_mem hd; h_pc := HDead; h_script := []; h_hash := h_hash hd |} (w_handles w) |},
                 [ECrash h])
   end.
 
@@ -627,10 +651,12 @@ Definition init_fs (tabs : list (nat * tfile)) : fs :=
   {| f_list := match tabs with [] => None | _ => Some (map fst tabs) end; f_lock := None; f_tabs := tabs;
      f_tlocks := []; f_tmps := []; f_next_tab := length tabs; f_next_tmp := 0 |}.
 
-Definition init_world (tabs : list (nat * tfile)) (scripts : list (list apiop)) : world :=
-  {| w_fs := init_fs tabs; w_handles := map (fun s => {| h_mem := None; h_pc := HIdle; h_script := s |}) scripts |}.
+(* a handle = the hash type it is configured with, and its script *)
+Definition init_world (tabs : list (nat * tfile)) (scripts : list (bool * list apiop)) : world :=
+  {| w_fs := init_fs tabs;
+     w_handles := map (fun s => {| h_mem := None; h_pc := HIdle; h_script := snd s; h_hash := fst s |}) scripts |}.
 
 (* the full trace: the initial snapshot, then the events of the run *)
-Definition trace_of (size_oracle : nat -> N) (attempts : nat) (tabs : list (nat * tfile)) (scripts : list (list apiop))
+Definition trace_of (size_oracle : nat -> N) (attempts : nat) (tabs : list (nat * tfile)) (scripts : list (bool * list apiop))
            (sched : list sched_item) : list event :=
   ESnap (snapshot_of (init_fs tabs)) :: snd (run size_oracle attempts (init_world tabs scripts) sched).
